@@ -210,9 +210,9 @@ class Check:
     # ------------------------------------------------------------------ reporting
     def finish(self):
         wall = time.time() - self.t0
-        evid_dir = os.path.join(VERIF, "evidence")
+        evid_dir = os.environ.get("PYVC_EVIDENCE_DIR") or os.path.join(VERIF, "evidence")
         os.makedirs(evid_dir, exist_ok=True)
-        replay_dir = os.path.join(VERIF, "replays", self.prop)
+        replay_dir = os.path.join(os.environ.get("PYVC_REPLAY_DIR") or os.path.join(VERIF, "replays"), self.prop)
         lines = []
         n_obl = n_dis = 0
         n_bounded = 0
